@@ -71,9 +71,10 @@ func registerSched() {
 	run.Register(&SchedCheck{Id: "C03", Profile: "gangs", Quick: 1000, Thorough: 8000, Oracle: cyc(oracle.CheckC03), SkipFaulty: true, PodGroupLag: true,
 		RuleText: genRule + "Non-trivial: a case in which a gang with total minimum >= 2 received a bind, nomination or eviction. Evaluated only on cases without injected API write failures.",
 		Assume:   []string{"pods whose sub-group label names no leaf sub-group are ignored (the scheduler ignores them too)", "the eviction clause is judged only for gangs that were at or above minimum in every pod set before the cycle"}})
-	run.Register(&SchedCheck{Id: "C04", PodGroupLag: true, Profile: "constraints", Quick: 1000, Thorough: 8000, Oracle: cyc(oracle.CheckC04),
+	run.Register(&SchedCheck{Id: "C04", PodGroupLag: true, Profile: "constraints", Quick: 1000, Thorough: 8000, Oracle: cycNoFailedCalls(oracle.CheckC04),
 		RuleText: genRule + "Non-trivial: a case with a bind/nomination of a pod whose hard constraints exclude at least one node of the pool, or that carries inter-pod (anti-)affinity terms, or whose group/sub-group has a required topology level.",
-		Assume: []string{"terminating, same-cycle-evicted and merely nominated pods are don't-care for inter-pod terms (either reading accepted)", "only Ready/unschedulable node conditions are demanded",
+		Assume: []string{"cycles in which a Bind / Evict / BindRequest-create call failed are not judged (the property quantifies over cluster states; what a statement does after a failed call is C13's subject)",
+			"terminating, same-cycle-evicted and merely nominated pods are don't-care for inter-pod terms (either reading accepted)", "only Ready/unschedulable node conditions are demanded",
 			"topology: labels are demanded for the required level and coarser levels only; already active pods pin the domain only if they lie in one domain"}})
 	run.Register(&SchedCheck{Id: "C06", Profile: "victims", Quick: 1500, Thorough: 8000, PodGroupLag: true,
 		Mutate: func(c *spec.Case, seed int64, idx int) { oracle.ResetC06() },
